@@ -83,6 +83,16 @@ func Distinct(v reflect.Value) interface{} {
 		return distinctValues.Interface()
 	}
 
+	// Any other value counts as a sequence of one item,
+	// which has no duplicates.
+	if v.IsValid() && v.CanInterface() {
+		if jtypes.IsCallable(v) && v.Kind() == reflect.Struct && v.CanAddr() {
+			// Undo the dereference made by Resolve.
+			v = v.Addr()
+		}
+		return v.Interface()
+	}
+
 	return nil
 }
 
